@@ -98,20 +98,72 @@ class Result:
         self.events = []
 
 
+def _noop_trace(frame, event, arg):
+    return None
+
+
+class keep_tracing:
+    """Context manager for sweeps of many runs: tracing stays on in the calling thread."""
+
+    def __enter__(self):
+        self.old = sys.gettrace()
+        if self.old is None:
+            sys.settrace(_noop_trace)
+
+    def __exit__(self, *a):
+        if self.old is None:
+            sys.settrace(None)
+
+
+_opcode_warm = [False]
+
+
+def _warm_opcode_tracing():
+    """CPython >= 3.12 switches per-instruction events on interpreter-wide the first time a
+    frame asks for them, and the frame that asked only sees them from its next call on. Ask
+    once up front so that every scheduled run sees the same events."""
+    if _opcode_warm[0]:
+        return
+    _opcode_warm[0] = True
+
+    def probe():
+        x = 1
+        return x + 1
+
+    def tr(frame, event, arg):
+        frame.f_trace_opcodes = True
+        return tr
+
+    old = sys.gettrace()
+    sys.settrace(tr)
+    try:
+        probe()
+        probe()
+    finally:
+        sys.settrace(old)
+
+
 class Scheduler:
     """
     fns        : one callable per thread
     want_code  : code object -> bool, frames to trace
     label_of   : frame -> hashable label or None (None: the line is not a switch point)
+    opcode_codes : code objects whose every bytecode is a switch point (finer than lines)
     policy     : object with `choose(k, cur, runnable, forced, label) -> tid`
     on_trace   : optional observer `(tid, frame, event, arg)` for every event of traced frames
     """
 
-    def __init__(self, fns, want_code, label_of, policy, on_trace=None, step_limit=200000, watchdog=60.0):
+    def __init__(self, fns, want_code, label_of, policy, on_trace=None, step_limit=200000, watchdog=60.0,
+                 opcode_codes=None):
         self.fns = list(fns)
         self.n = len(self.fns)
         self.want_code, self.label_of, self.policy, self.on_trace = want_code, label_of, policy, on_trace
         self.step_limit, self.watchdog = step_limit, watchdog
+        # code objects in which every *bytecode* (not only every line) is a switch point;
+        # `label_of(frame)` is then called for "opcode" events as well (frame.f_lasti tells where)
+        self.opcode_codes = opcode_codes or ()
+        if self.opcode_codes:
+            _warm_opcode_tracing()
         self.go = [threading.Semaphore(0) for _ in self.fns]
         self.status = ["ready"] * self.n  # ready | blocked | done
         self.blocked_on = [None] * self.n
@@ -191,7 +243,9 @@ class Scheduler:
         tid = _CUR.tid
         if self.on_trace is not None:
             self.on_trace(tid, frame, event, arg)
-        if event == "line" and not self.aborting:
+        if (event == "line" or event == "opcode") and not self.aborting:
+            if event == "line" and frame.f_trace_opcodes:
+                return self._local  # the opcode event of the same instruction follows
             lab = self.label_of(frame)
             if lab is not None:
                 self._point(tid, lab)
@@ -201,6 +255,8 @@ class Scheduler:
         if self.want_code(frame.f_code):
             if self.on_trace is not None:
                 self.on_trace(_CUR.tid, frame, event, arg)
+            if frame.f_code in self.opcode_codes:
+                frame.f_trace_opcodes = True
             return self._local
         return None
 
@@ -248,6 +304,14 @@ class Scheduler:
         if _ACTIVE is not None:
             raise RuntimeError("nested schedulers")
         _ACTIVE = self
+        # Keep (legacy) tracing switched on in this thread for the whole run: CPython >= 3.12
+        # (de)instruments every code object when the number of tracing threads changes between
+        # 0 and 1; doing that only while no scheduled thread exists avoids re-instrumenting code
+        # that another thread is in the middle of executing (seen to crash 3.12.1).
+        restore = None
+        if sys.gettrace() is None:
+            restore = True
+            sys.settrace(_noop_trace)
         try:
             ths = [threading.Thread(target=self._body, args=(i,), daemon=True) for i in range(self.n)]
             for t in ths:
@@ -257,9 +321,11 @@ class Scheduler:
             if not self.finished.wait(self.watchdog):
                 raise SchedulerHang(f"scheduler watchdog fired after {self.watchdog}s (k={self.k})")
             for t in ths:
-                t.join(5.0)
+                t.join(10.0)
         finally:
             _ACTIVE = None
+            if restore:
+                sys.settrace(None)
         return self.res
 
 
@@ -285,6 +351,35 @@ class Replay:
         if not forced and cur in runnable:
             return cur
         return min(runnable)
+
+
+class AtLabels:
+    """Pre-empt by label, robust to line renumbering: rules `[tid, label, occurrence, switch_to]` —
+    when thread `tid` reaches a switch point labelled `label` for the `occurrence`-th time, run
+    `switch_to` instead (a label ending in `*` is a prefix pattern, counted per pattern).
+    Otherwise like `Replay({})`; `start` picks the first thread."""
+
+    def __init__(self, rules, start=None):
+        self.rules = [tuple(r) for r in rules]
+        self.start = start
+        self.seen = {}
+        self.fired = []
+
+    def choose(self, k, cur, runnable, forced, label):
+        if forced:
+            if label == "start" and self.start in runnable:
+                return self.start
+            return min(runnable)
+        counts = {}
+        for lab in {r[1] for r in self.rules} | {label}:
+            hit = lab == label or (isinstance(lab, str) and isinstance(label, str) and lab.endswith("*") and label.startswith(lab[:-1]))
+            if hit:
+                counts[lab] = self.seen[(cur, lab)] = self.seen.get((cur, lab), 0) + 1
+        for tid, lab, occ, to in self.rules:
+            if tid == cur and counts.get(lab) == occ and to in runnable:
+                self.fired.append((tid, lab, occ, to))
+                return to
+        return cur
 
 
 class RandomPriority:
